@@ -177,8 +177,8 @@ func init() {
 		ignore := c.Bool()
 		if part == 0 {
 			maxLen := 6
-			if c.Thorough {
-				maxLen = 7
+			if c.Thorough && !ignore {
+				maxLen = 7 // thorough: one byte more, without IgnoreUnknown
 			}
 			n := c.Choose(maxLen + 1)
 			text := ""
@@ -263,7 +263,7 @@ func init() {
 		Level:      "fault_enumeration",
 		ShardDepth: 5,
 		Body:       body,
-		Rule: "(i) every byte string of length <= 6 (quick) / <= 7 (thorough) over {[ ] = \" : ; # space LF CR a \\ 0xFF} read into a declaration whose option, ini-name and group are reachable over that alphabet (map option a, group a, ini-name aa); " +
+		Rule: "(i) every byte string of length <= 6 (thorough: <= 7 without IgnoreUnknown) over {[ ] = \" : ; # space LF CR a \\ 0xFF} read into a declaration whose option, ini-name and group are reachable over that alphabet (map option a, group a, ini-name aa); " +
 			"(ii) every file of <= 3 (quick) / <= 4 (thorough) lines over 37 lines, and of 4 / 5 lines over the 28 of them that are short: 8 valid entries (scalar, int, slice, map, bool, quoted, group and command options), 3 headers, 8 noise lines (empty, blanks, ; and # comments, 4095/4096/10000-byte comments, a 4097-byte value) and 2 entries whose line is exactly one / two read buffers long (4096 / 8192 bytes), " +
 			"9 faults (no '=', bad quoting, open header, empty header, unknown option, unconvertible int, empty map value, unknown section, padded entry) x LF/CRLF x final newline present/absent; both with and without IgnoreUnknown; " +
 			"oracle: returns normally; reference reader: no fault => no error and the values the entries denote (noise and line ends change nothing); faults => the error is one of them, IniError carrying exactly its 1-based line or ErrUnknownGroup; the first syntax fault always wins; " +
